@@ -181,9 +181,10 @@ class JSONCodec(AbstractMetadataCodec):
         else:
             result = json.loads(encoded.decode())
 
-        # Assign default values
+        # Assign default values. These are copied so that modifying a decoded row
+        # cannot change the defaults seen by subsequently decoded rows.
         if isinstance(result, dict):
-            return dict(self.defaults, **result)
+            return dict(copy.deepcopy(self.defaults), **result)
         else:
             return result
 
